@@ -83,69 +83,80 @@ theorem removeZero_spec {lo : Option Denom} {cs : Coins} (h : SortedFrom lo cs) 
 theorem addUnsafe_spec {lo : Option Denom} {a b r : Coins} (ha : SortedFrom lo a) (hb : SortedFrom lo b)
     (h : addUnsafe a b = some r) :
     SortedFrom lo r ∧ ∀ d, amountOf r d = amountOf a d + amountOf b d := by
-  fun_induction addUnsafe a b generalizing lo r with
-  | case1 b =>
+  induction a generalizing lo b r with
+  | nil =>
+    simp only [addUnsafe] at h
     cases h
     obtain ⟨hs, hq⟩ := removeZero_spec hb
     exact ⟨hs, fun d => by rw [hq, amountOf_nil]; omega⟩
-  | case2 a ra =>
-    cases h
-    obtain ⟨hs, hq⟩ := removeZero_spec ha
-    exact ⟨hs, fun d => by rw [hq, amountOf_nil]; omega⟩
-  | case3 a ra b rb hlt ih =>
-    cases hrec : addUnsafe ra (b :: rb) with
-    | none => rw [hrec] at h; cases h
-    | some r' =>
-      rw [hrec] at h; cases h
-      have hb' : SortedFrom (some a.1) (b :: rb) := ⟨fun l hl => by cases hl; exact hlt, hb.2⟩
-      obtain ⟨hs, hq⟩ := ih ha.2 hb' hrec
-      refine ⟨sortedFrom_consNZ ha.1 hs, fun d => ?_⟩
-      rw [amountOf_consNZ hs, hq, amountOf_cons a ra d]
-      by_cases had : a.1 = d
-      · rw [if_pos had, if_pos had]
-        have : amountOf (b :: rb) d = 0 := by
-          subst had
-          exact amountOf_eq_zero_of_sorted hb' (String.lt_irrefl _)
-        omega
-      · rw [if_neg had, if_neg had]
-  | case4 a ra b rb hlt heq hin ih =>
-    have hab : a.1 = b.1 := by simpa using heq
-    cases hrec : addUnsafe ra rb with
-    | none => rw [hrec] at h; cases h
-    | some r' =>
-      rw [hrec] at h; cases h
-      have hb' : SortedFrom (some a.1) rb := by rw [hab]; exact hb.2
-      obtain ⟨hs, hq⟩ := ih ha.2 hb' hrec
-      refine ⟨sortedFrom_consNZ (c := (a.1, a.2 + b.2)) ha.1 hs, fun d => ?_⟩
-      rw [amountOf_consNZ (c := (a.1, a.2 + b.2)) hs, hq, amountOf_cons a ra d, amountOf_cons b rb d]
-      by_cases had : a.1 = d
-      · have hbd : b.1 = d := by rw [← hab]; exact had
-        simp only [had, hbd, if_true]
-      · have hbd : ¬ b.1 = d := by rw [← hab]; exact had
-        simp only [had, hbd, if_false]
-  | case5 a ra b rb hlt heq hin => simp at h
-  | case6 a ra b rb hlt heq ih =>
-    have hne : a.1 ≠ b.1 := by simpa using heq
-    have hba : b.1 < a.1 := by
-      have hle : b.1 ≤ a.1 := String.not_lt.mp hlt
-      rcases Decidable.em (b.1 < a.1) with h' | h'
-      · exact h'
-      · exact absurd (String.le_antisymm (String.not_lt.mp h') hle) hne
-    cases hrec : addUnsafe (a :: ra) rb with
-    | none => rw [hrec] at h; cases h
-    | some r' =>
-      rw [hrec] at h; cases h
-      have ha' : SortedFrom (some b.1) (a :: ra) := ⟨fun l hl => by cases hl; exact hba, ha.2⟩
-      obtain ⟨hs, hq⟩ := ih ha' hb.2 hrec
-      refine ⟨sortedFrom_consNZ hb.1 hs, fun d => ?_⟩
-      rw [amountOf_consNZ hs, hq, amountOf_cons b rb d]
-      by_cases hbd : b.1 = d
-      · rw [if_pos hbd, if_pos hbd]
-        have : amountOf (a :: ra) d = 0 := by
-          subst hbd
-          exact amountOf_eq_zero_of_sorted ha' (String.lt_irrefl _)
-        omega
-      · rw [if_neg hbd, if_neg hbd]
+  | cons a ra iha =>
+    simp only [addUnsafe] at h
+    induction b generalizing lo r with
+    | nil =>
+      simp only [addAux] at h
+      cases h
+      obtain ⟨hs, hq⟩ := removeZero_spec ha
+      exact ⟨hs, fun d => by rw [hq, amountOf_nil]; omega⟩
+    | cons b rb ihb =>
+      simp only [addAux] at h
+      split at h
+      · rename_i hlt
+        cases hrec : addUnsafe ra (b :: rb) with
+        | none => rw [hrec] at h; cases h
+        | some r' =>
+          rw [hrec] at h; cases h
+          have hb' : SortedFrom (some a.1) (b :: rb) := ⟨fun l hl => by cases hl; exact hlt, hb.2⟩
+          obtain ⟨hs, hq⟩ := iha ha.2 hb' hrec
+          refine ⟨sortedFrom_consNZ ha.1 hs, fun d => ?_⟩
+          rw [amountOf_consNZ hs, hq, amountOf_cons a ra d]
+          by_cases had : a.1 = d
+          · rw [if_pos had, if_pos had]
+            have : amountOf (b :: rb) d = 0 := by
+              subst had
+              exact amountOf_eq_zero_of_sorted hb' (String.lt_irrefl _)
+            omega
+          · rw [if_neg had, if_neg had]
+      · rename_i hlt
+        split at h
+        · rename_i heq
+          have hab : a.1 = b.1 := by simpa using heq
+          split at h
+          · cases hrec : addUnsafe ra rb with
+            | none => rw [hrec] at h; cases h
+            | some r' =>
+              rw [hrec] at h; cases h
+              have hb' : SortedFrom (some a.1) rb := by rw [hab]; exact hb.2
+              obtain ⟨hs, hq⟩ := iha ha.2 hb' hrec
+              refine ⟨sortedFrom_consNZ (c := (a.1, a.2 + b.2)) ha.1 hs, fun d => ?_⟩
+              rw [amountOf_consNZ (c := (a.1, a.2 + b.2)) hs, hq, amountOf_cons a ra d, amountOf_cons b rb d]
+              by_cases had : a.1 = d
+              · have hbd : b.1 = d := by rw [← hab]; exact had
+                simp only [had, hbd, if_true]
+              · have hbd : ¬ b.1 = d := by rw [← hab]; exact had
+                simp only [had, hbd, if_false]
+          · cases h
+        · rename_i heq
+          have hne : a.1 ≠ b.1 := by simpa using heq
+          have hba : b.1 < a.1 := by
+            have hle : b.1 ≤ a.1 := String.not_lt.mp hlt
+            rcases Decidable.em (b.1 < a.1) with h' | h'
+            · exact h'
+            · exact absurd (String.le_antisymm (String.not_lt.mp h') hle) hne
+          cases hrec : addAux a ra (addUnsafe ra) rb with
+          | none => rw [hrec] at h; cases h
+          | some r' =>
+            rw [hrec] at h; cases h
+            have ha' : SortedFrom (some b.1) (a :: ra) := ⟨fun l hl => by cases hl; exact hba, ha.2⟩
+            obtain ⟨hs, hq⟩ := ihb ha' hb.2 hrec
+            refine ⟨sortedFrom_consNZ hb.1 hs, fun d => ?_⟩
+            rw [amountOf_consNZ hs, hq, amountOf_cons b rb d]
+            by_cases hbd : b.1 = d
+            · rw [if_pos hbd, if_pos hbd]
+              have : amountOf (a :: ra) d = 0 := by
+                subst hbd
+                exact amountOf_eq_zero_of_sorted ha' (String.lt_irrefl _)
+              omega
+            · rw [if_neg hbd, if_neg hbd]
 
 /-! ### validity -/
 
